@@ -44,6 +44,7 @@ def plan(tier, seed):
     cases = [{"mode": "delivery", "seed": seed, "idx": i} for i in range(n)]
     d = 64 if tier == "quick" else 1600
     cases += [{"mode": "determinism", "seed": seed, "idx": i, "runs": 3 if tier == "quick" else 4} for i in range(d)]
+    cases += [{"mode": "sports", "seed": seed, "idx": i} for i in range(150 if tier == "quick" else 3000)]
     return cases
 
 
@@ -126,6 +127,12 @@ def predict(snaps, kw):
 def run_delivery(desc, out):
     case, snaps = build(desc)
     raise_run = desc["idx"] % 9 == 8
+    if desc["idx"] % 9 == 4:
+        # a strategy's work inside the documented real_time() block fails (swallowed by the error handling): the simulated clock is back
+        # for every later callback
+        st_ = case["strategies"][0]
+        mk_ = case["markets"][0]["id"]
+        st_["actions"] = sorted(st_["actions"] + [{"m": mk_, "at": 1, "op": "real_time_raise"}], key=lambda a: a["at"])
     if raise_run:
         case["config"] = dict(case.get("config", {}), raise_errors=True)
         case["strategies"][0]["raise_at"] = [["book", 2]]
@@ -225,8 +232,49 @@ def run_determinism(desc, out):
         shutil.rmtree(tmp, ignore_errors=True)
 
 
+def run_sports(desc, out):
+    """A simulation with SimulatedSportsDataMiddleware (sports-data updates interleaved with the market's): in every market callback
+    the framework clock is still the publish time of the market update being processed."""
+    import shutil
+    from flumine.markets.middleware import SimulatedSportsDataMiddleware
+
+    rng = simgen.mk_rng(desc["seed"], desc["idx"], 143)
+    mid = "1.2%08d" % rng.randint(0, 99999)
+    d = G.Director(rng, mid, {"p_inplay": 0.6, "n_pre": (6, 14), "spacing_ms": (500, 1000, 2000, 5000), "p_removal": 0.0})
+    mf = d.run()
+    pts = [l["pt"] for l in mf.lines]
+    snaps = {mid: G.read_lines(mf.lines)}
+    sdir = tempfile.mkdtemp(prefix="vfc14s_")
+    try:
+        n_sd = rng.randint(3, 12)
+        sd_pts = sorted(rng.randint(pts[0], pts[-2]) for _ in range(n_sd))
+        with open(os.path.join(sdir, mid), "w") as f:
+            for i, pt in enumerate(sd_pts):
+                f.write(json.dumps({"op": "ccm", "id": 2, "clk": str(i), "pt": pt, "cc": [{"eventId": "30000001", "marketId": mid, "fixtureInfo": {"fixtureStatus": "IN_PLAY", "eventStatus": "BALL_IN_PROGRESS", "i": i}}]}) + "\n")
+        actions = simgen.gen_script(rng, snaps[mid], mid, "S0", {"n_orders": (2, 6)})
+        case = {"seed": desc["seed"], "idx": desc["idx"], "markets": [{"id": mid, "text": mf.text()}], "strategies": [{"name": "S0", "actions": actions}], "_middlewares": [lambda tr: SimulatedSportsDataMiddleware("cricketSubscription", sdir)]}
+        tr = simrun.run_case(case)
+        if O.abort_violation(tr, out):
+            return
+        out.d("c14sports:%d" % min(n_sd, 8))
+        for cb in tr.callbacks:
+            if cb.get("now") is not None and cb.get("pt") is not None:
+                out.rule("clock")
+                if cb["now"] != cb["pt"]:
+                    out.v("utcnow-differs-from-publish-time", {"callback": cb["kind"], "sports_data": True}, callback=cb)
+        out.rule("clock-restored")
+        if not tr.datetime_restored:
+            out.v("real-clock-not-restored", {"run_raised": False, "sports_data": True})
+        out.c("sports_runs")
+    finally:
+        shutil.rmtree(sdir, ignore_errors=True)
+
+
 def run(desc):
     out = O.Out(PROPERTY)
+    if desc["mode"] == "sports":
+        run_sports(desc, out)
+        return out.result()
     if desc["mode"] == "delivery":
         run_delivery(desc, out)
     else:
